@@ -48,7 +48,7 @@ def run(tier, seed):
         rt, et = np.array(o["rt"], dtype=float) * 0.01, np.array(o["et"], dtype=float) * 0.01
         rf, ef = [hz(f) for f in r["rfr"]], [hz(f) for f in r["efr"]]
         w = WIN[r["w"]]
-        detail = {"ref_times": rt.tolist(), "est_times": et.tolist(), "ref_units": r["rfr"], "est_units": r["efr"], "window": w, "mode": r["mode"]}
+        detail = {"origin": r["org"], "ref_times": rt.tolist(), "est_times": et.tolist(), "ref_units": r["rfr"], "est_units": r["efr"], "window": w, "mode": r["mode"]}
         want = [o["raw"][x] for x in ("p", "r", "acc", "esub", "emiss", "efa", "etot")] + \
                [o["chroma"][x] for x in ("p", "r", "acc", "esub", "emiss", "efa", "etot")]
         want = [float(frac(x)) for x in want]
@@ -78,7 +78,7 @@ def run(tier, seed):
                               dict(detail, got=got, expected=want))
         except Exception as ex:  # noqa
             rep.violation("multipitch.metrics", "raised-" + type(ex).__name__, dict(detail, message=str(ex)[:200]))
-        ev.case((r["rfr"], r["efr"], r["w"], r["mode"]), nontrivial=0 < sum(o["raw"]["tp"]) and o["raw"]["etot"][0] > 0)
+        ev.case((r["rfr"], r["efr"], r["w"], r["mode"], r["org"]), nontrivial=0 < sum(o["raw"]["tp"]) and o["raw"]["etot"][0] > 0)
     ev.sample({"model": cfg, "row": rows[len(rows) // 2]})
     # larger seeded inputs: identities judged by TLC on the recorded outcomes
     events = []
